@@ -43,6 +43,23 @@ fn extras() -> Vec<String> {
     .into_iter()
     .map(String::from)
     .collect();
+    // first components of every interesting length (around NAME_MAX, PATH_MAX, powers of two), ASCII and
+    // multi-byte, followed by every kind of tail: a validator that only looks at a prefix, or that reasons
+    // about the whole name where the kernel reasons per component, shows up here
+    for len in [1usize, 2, 63, 64, 127, 128, 253, 254, 255, 256, 257, 511, 512, 1023, 1024, 4094, 4095, 4096] {
+        for multibyte in [false, true] {
+            let head: String = if multibyte {
+                let mut h = "€".repeat(len / 3);
+                h.push_str(&"a".repeat(len - 3 * (len / 3)));
+                h
+            } else {
+                "a".repeat(len)
+            };
+            for tail in ["/", "/b", "/../../x", "/../../sentinel.txt", "/./b", "/../valid", "/../.app", "\\b"] {
+                v.push(format!("{}{}", head, tail));
+            }
+        }
+    }
     v.push("a".repeat(255));
     v.push("a".repeat(256));
     v.push("a".repeat(5000));
@@ -245,7 +262,7 @@ pub fn run_case(name: &str, opname: &str, front: &str, rep: &mut Report) -> Vec<
             if !ok {
                 bad.push((
                     if has_sep { "separator-escape".into() } else { "stray-effect".into() },
-                    format!("accepted name {:?}: effect outside the expected entry: {} {}", name, d.0, d.1),
+                    format!("accepted name: effect outside the expected entry: {} {}", d.0, d.1.chars().take(120).collect::<String>()),
                 ));
             }
         }
@@ -321,7 +338,7 @@ fn record(name: &str, op: &str, front: &str, rep: &mut Report) {
         if seen.insert(sig.clone()) {
             rep.violation(
                 format!("names:{}", sig),
-                format!("{} {}({:?}): {}", front, op, name.chars().take(60).collect::<String>(), msg),
+                format!("{} {}({:?}{}): {}", front, op, name.chars().take(40).collect::<String>(), if name.len() > 40 { format!("... {} bytes", name.len()) } else { String::new() }, msg.chars().take(300).collect::<String>()),
                 case_json(name, op, front),
             );
         }
